@@ -221,6 +221,19 @@ fn main() {
                         other => ctx.violation("calver_failed", key, json!({"kind":"git-calver","t":ht}), format!("{other:?}")),
                     }
                 }
+                // without the bump context the date falls back to the *tagged commit's* commit time (t0), not to the time an
+                // annotated tag object was written (40 days later in these repositories)
+                if matches!(head, Head::Branch(_)) {
+                    let c0 = cal::civil(t0);
+                    for preset in ["calver-base", "calver"] { for fmt in ["semver", "pep440"] {
+                        st.inc("git_calver_evaluations");
+                        let args = ["version", "-C", &dir, "--schema", preset, "--no-bump-context", "--output-format", fmt];
+                        match zv::run_cli(&args, None) {
+                            Ok(Res::Ok(out)) => { let want = format!("{}.{}.{}", c0.year, c0.month, c0.day); if !out.starts_with(&want) { ctx.violation("git_calver_tag_time_fallback_mismatch", format!("git {preset} --no-bump-context [{fmt}] tag commit time {t0}"), json!({"kind":"git-calver-fallback","t":t0,"preset":preset}), format!("printed {out:?}, the tagged commit's UTC date is {want}")); } }
+                            other => ctx.violation("calver_failed", format!("git {preset} --no-bump-context @ {t0}"), json!({"kind":"git-calver-fallback","t":t0}), format!("{other:?}")),
+                        }
+                    }}
+                }
                 for p in cal::PATTERNS {
                     st.inc("git_pattern_evaluations");
                     let ron = format!("(core:[var(Major),var(Minor),var(Patch)],extra_core:[],build:[str(\"t\"),var(ts(\"{p}\"))])");
